@@ -658,3 +658,93 @@ func IsIntConst(v ssa.Value, n int64) bool {
 	x, exact := constant.Int64Val(c.Value)
 	return exact && x == n
 }
+
+// ThroughLocalStruct resolves a field read of a struct value that was assembled in a local variable: v is
+// Field(X, i) or a load of FieldAddr(A, i); every feasible leaf of the struct value at `at` is a load of one local
+// Alloc whose field i is written by exactly one Store (or which is assigned as a whole exactly once, from such a
+// value) — the stored value is returned. Anything else returns v unchanged.
+// (A result struct bundled by an inlined helper: `var r T; r.a = f(); return r` … `x := r.a`.)
+func ThroughLocalStruct(fn *ssa.Function, v ssa.Value, at ssa.Instruction) ssa.Value {
+	var res ssa.Value
+	switch x := v.(type) {
+	case *ssa.Field:
+		res = fieldOfStructValue(fn, x.X, x.Field, at, 0)
+	case *ssa.UnOp:
+		if fa, ok := x.X.(*ssa.FieldAddr); ok && x.Op == token.MUL {
+			if a, ok := fa.X.(*ssa.Alloc); ok {
+				res = fieldOfAlloc(fn, a, fa.Field, at, 0)
+			}
+		}
+	}
+	if res == nil {
+		return v
+	}
+	return res
+}
+
+func fieldOfStructValue(fn *ssa.Function, sv ssa.Value, field int, at ssa.Instruction, depth int) ssa.Value {
+	if depth > 3 {
+		return nil
+	}
+	var res ssa.Value
+	for _, lf := range FeasibleLeaves(fn, sv, at) {
+		u, ok := lf.V.(*ssa.UnOp)
+		if !ok || u.Op != token.MUL {
+			return nil
+		}
+		a, ok := u.X.(*ssa.Alloc)
+		if !ok {
+			return nil
+		}
+		r := fieldOfAlloc(fn, a, field, at, depth+1)
+		if r == nil || (res != nil && r != res) {
+			return nil
+		}
+		res = r
+	}
+	return res
+}
+
+func fieldOfAlloc(fn *ssa.Function, a *ssa.Alloc, field int, at ssa.Instruction, depth int) ssa.Value {
+	if a.Referrers() == nil || depth > 3 {
+		return nil
+	}
+	var stored, whole ssa.Value
+	nField, nWhole := 0, 0
+	for _, ref := range *a.Referrers() {
+		switch y := ref.(type) {
+		case *ssa.FieldAddr:
+			if y.Referrers() == nil {
+				continue
+			}
+			for _, r2 := range *y.Referrers() {
+				if st, ok := r2.(*ssa.Store); ok && st.Addr == ssa.Value(y) {
+					if y.Field == field {
+						stored = st.Val
+						nField++
+					}
+				} else if _, isLoad := r2.(*ssa.UnOp); !isLoad {
+					if _, isDbg := r2.(*ssa.DebugRef); !isDbg && y.Field == field {
+						return nil // the address of the field is used otherwise
+					}
+				}
+			}
+		case *ssa.UnOp, *ssa.DebugRef:
+		case *ssa.Store:
+			if y.Addr != ssa.Value(a) {
+				return nil // the variable's address is stored somewhere
+			}
+			whole = y.Val
+			nWhole++
+		default:
+			return nil // the variable's address is used otherwise
+		}
+	}
+	switch {
+	case nField == 1 && nWhole == 0:
+		return stored
+	case nField == 0 && nWhole == 1:
+		return fieldOfStructValue(fn, whole, field, at, depth+1)
+	}
+	return nil
+}
